@@ -1,8 +1,8 @@
 SPECIFICATION Spec
 CONSTANTS
-  MaxBreaches = 4
-  MaxSteps = 1
-  Acts = {}
+  MaxBreaches = 0
+  MaxSteps = 5
+  Acts = {"Inject", "Repair", "Reopen"}
 INVARIANTS Sound SoftNeverError Complete
 PROPERTIES HistoryFree RepairRestores
 VIEW View
